@@ -210,6 +210,10 @@ func (h *Hash) MarshalDigest() []byte {
 
 // ParseFromB58 parses the object ref from a base58 string.
 func (h *Hash) ParseFromB58(ref string) error {
+	// MarshalString encodes the empty hash as the empty string.
+	if ref == "" {
+		return h.UnmarshalVT(nil)
+	}
 	dat, err := b58.Decode(ref)
 	if err != nil {
 		return err
